@@ -215,7 +215,7 @@ def r01_3_recursion(ctx):
         if 'is_generic_sequence(%s)' % rt in gt:
             it = _iter_var_over(c, '%s.value' % node)
             good = it is not None and isinstance(it[1], ast.Name) and norm(a0) == it[1].id \
-                and norm(a1) == 'generic_type_args(%s)[0]' % rt and _stored_back(f, c, it[0], node)
+                and f.alpha.text(a1) == f.alpha.text(ast.parse('generic_type_args(%s)[0]' % rt, mode='eval').body) and _stored_back(f, c, it[0], node)
             r.check(good, 'sequence arm: every item of %s.value is processed with generic_type_args(%s)[0] and stored back'
                     % (node, rt), f.key('seq-arm:%s' % norm(c)), f.loc(c),
                     'sequence arm does not process every item with the item type / does not store it back')
@@ -226,13 +226,13 @@ def r01_3_recursion(ctx):
                     and all(isinstance(x, ast.Name) for x in it[1].elts) and _stored_back(f, c, it[0], node):
                 kn, vn = it[1].elts[0].id, it[1].elts[1].id
                 if norm(a0) == kn:
-                    good = norm(a1) == 'generic_type_args(%s)[0]' % rt and _pair_position(c) == 0
+                    good = f.alpha.text(a1) == f.alpha.text(ast.parse('generic_type_args(%s)[0]' % rt, mode='eval').body) and _pair_position(c) == 0
                     r.check(good, 'mapping arm: every key is processed with the key type', f.key('map-arm-key'), f.loc(c),
                             'mapping key is processed with %s / stored in the wrong position' % norm(a1))
                     map_k = map_k or good
                     continue
                 if norm(a0) == vn:
-                    good = norm(a1) == 'generic_type_args(%s)[1]' % rt and _pair_position(c) == 1
+                    good = f.alpha.text(a1) == f.alpha.text(ast.parse('generic_type_args(%s)[1]' % rt, mode='eval').body) and _pair_position(c) == 1
                     r.check(good, 'mapping arm: every value is processed with the value type', f.key('map-arm-value'),
                             f.loc(c), 'mapping value is processed with %s / stored in the wrong position' % norm(a1))
                     map_v = map_v or good
